@@ -270,8 +270,8 @@ func checkC09(c *Ctx) {
 	c.ruleSizeEquations("K")
 	c.R.Floor("K0.atomic", 4)
 	c.R.Floor("K0.guard", 3)
-	c.R.Floor("K1.same", 2)
-	c.R.Floor("K2.paired", 2)
+	c.R.Floor("K1.same", 1)
+	c.R.Floor("K2.paired", 1)
 	c.R.Floor("K4.uniform", 1)
 }
 
